@@ -1034,6 +1034,33 @@ fn generate_overlap(seed: u64) -> Scenario {
             fixed_timing: true,
         };
     }
+    if r.chance(20) {
+        // "joining asker": A's handler ask_joins B. B answers at once with the JoinHandle of a task that runs for 8 ms; while A
+        // is still waiting for that task (not for B any more - its ask has been answered), B's next handler asks A. Nobody
+        // waits for anybody in a cycle: B's ask simply queues until A's handler is done.
+        let mut ju = nu();
+        while ju % 4 != 3 {
+            ju = nu();
+        }
+        let m1 = Body { uid: nu(), flags: 0, steps: vec![Step::Peer { target: 1, kind: SendKind::AskJoin, mty: MTy::J, body: plain(ju, 0) }] };
+        let back = Body { uid: nu(), flags: 0, steps: vec![Step::Peer { target: 0, kind: SendKind::Ask, mty: MTy::U, body: plain(nu(), 0) }] };
+        let clients = vec![
+            ClientSpec { init: vec![Some(0), None, None, None], ops: vec![ClientOp { pre: Pre::None, op: Op::Send { slot: 0, kind: if r.chance(50) { SendKind::Tell } else { SendKind::Ask }, mty: MTy::U, body: m1 } }], drop_at_end: true },
+            ClientSpec { init: vec![Some(1), None, None, None], ops: vec![ClientOp { pre: Pre::Sleep(2 + 2 * r.below(2)), op: Op::Send { slot: 0, kind: SendKind::Ask, mty: MTy::U, body: back } }], drop_at_end: true },
+        ];
+        return Scenario {
+            seed,
+            pert: 0,
+            profile: "deadlock".to_string(),
+            actors,
+            clients,
+            ngates: 1,
+            teardown: vec![Teardown::Stop, Teardown::Stop, Teardown::Kill],
+            sample_until: 61,
+            default_cap: 32,
+            fixed_timing: true,
+        };
+    }
     let m1 = Body { uid: nu(), flags: 0, steps: vec![first] };
     let back = Body { uid: nu(), flags: 0, steps: vec![Step::Peer { target: 0, kind: if r.chance(70) { SendKind::Ask } else { SendKind::AskTo(2 * r.range(1, 5)) }, mty: MTy::U, body: plain(nu(), 2 * r.below(3)) }] };
     let clients = vec![
